@@ -43,6 +43,10 @@ def check_drivers(ctx):
         if I.findings:
             compare(ctx, 'PERM-8', tag, where_, Unk('x'), Poly(), findings=I.findings)
             continue
+        if isinstance(fl, GenList) and getattr(fl, 'shared', False):
+            ctx.violation('EFF-6', '%s: one table per filter' % tag, where_, 'the list of per-filter tables is one object repeated ([table] * n): every entry is the same table, so what is stored for one '
+                          'filter is stored for all and every file holds the last filter\'s fluxes', 'one-object-repeated')
+            continue
         if not isinstance(fl, GenList) or not isinstance(fl.elem, Obj):
             ctx.undecided('PERM-8', tag, where_, 'list of convolved fluxes not modelled')
             continue
